@@ -24,7 +24,10 @@ line after a record line should mean is a design decision for the maintainer;
 the multi-line leniency is documented behaviour). Consequently constructive
 streams never put junk lines directly after record lines, and the fixpoint
 check is skipped (and counted) for multi-line values, whose embedded line
-breaks are outside the encoder's alphabet. A false alarm of the hand parser was
+breaks are outside the encoder's alphabet. Since round 4 value edges also
+carry white space that is not ASCII (NBSP, U+3000, U+2003, U+0085): "its
+value trimmed" is read as `strings.TrimSpace` does it, which supersedes the
+plan's "ASCII space/tab only". A false alarm of the hand parser was
 corrected (§8). *Seeded changes caught*: C02-1 (open-node stack not truncated
 on dedent: a later over-deep line attaches to a closed node), C02-2 (greedy
 xref group: `0 @A@ NOTE x @ y` mis-split).
